@@ -336,6 +336,18 @@ class RefCache:
         self.explicit_cull = True
         return n
 
+    def op_create_tag_index(self):
+        return None
+
+    def op_drop_tag_index(self):
+        return None
+
+    def op_reset(self, key, value):
+        # only settings that change observable behaviour of later calls are modelled
+        if key == 'cull_limit':
+            self.cull_limit = value
+        return value
+
     def op_stats(self, enable=True, reset=False):
         out = (self.hits, self.misses)
         if reset:
